@@ -29,7 +29,7 @@ func init() { core.Register(prop{}) }
 func (prop) ID() string    { return "C14" }
 func (prop) Level() string { return "exploration" }
 func (prop) Rule() string {
-	return "scenario = 1..4 simultaneous client connections to a fresh raw listener (verif constructor, synchronous injection into the real handleTCP): client ISN from {0,1,2^31-1,2^31,2^32-2,2^32-1} or seeded, source/destination ports incl. decoded ones and swapped port pairs, payload 0..4000 bytes in 1..8 in-order segments (<=1460 bytes, odd and even lengths, PSH on a chosen segment), FIN; all interleavings of 2 connections x 5 frames (252) and seeded interleavings beyond; a seeded subset parks the connection handler at the yield point between its buffer check and its wait while the pushed data is injected. Oracle: RFC 793 shadow model of the peer's expectations over the frames drained from the transmit ring (decoded and checksum-verified by an independent codec) and the connection's event. Non-trivial = the SYN was answered; distinct by scenario parameters. Also: per peer address, IPv4 identification values at which the reply header's checksum needs a second carry fold or crosses a carry boundary (derived from the SYN-ACK, set through the hook VerifSetIPID); and a reconnect from the same address and port after a connection has been carried to its end. Every fifth seeded scenario delivers its frames padded to the Ethernet minimum of 60 bytes, every tenth with a four-byte trailer as well. One seeded connection in seven puts its FIN on the last data segment."
+	return "scenario = 1..4 simultaneous client connections to a fresh raw listener (verif constructor, synchronous injection into the real handleTCP): client ISN from {0,1,2^31-1,2^31,2^32-2,2^32-1} or seeded, source/destination ports incl. decoded ones and swapped port pairs, payload 0..4000 bytes in 1..8 in-order segments (<=1460 bytes, odd and even lengths, PSH on a chosen segment), FIN; all interleavings of 2 connections x 5 frames (252) and seeded interleavings beyond; a seeded subset parks the connection handler at the yield point between its buffer check and its wait while the pushed data is injected. Oracle: RFC 793 shadow model of the peer's expectations over the frames drained from the transmit ring (decoded and checksum-verified by an independent codec) and the connection's event. Non-trivial = the SYN was answered; distinct by scenario parameters. Also: per peer address, IPv4 identification values at which the reply header's checksum needs a second carry fold or crosses a carry boundary (derived from the SYN-ACK, set through the hook VerifSetIPID); and a reconnect from the same address and port after a connection has been carried to its end. Every fifth seeded scenario delivers its frames padded to the Ethernet minimum of 60 bytes, every tenth with a four-byte trailer as well. One seeded connection in seven puts its FIN on the last data segment. first-ends-while-second-open: connection A is finished on both sides (optionally followed by a last ACK or a RST) between B's handshake and B's data. Events of connections that share an address/port tuple are attributed by the bytes they carry."
 }
 func (prop) Assumptions() []string {
 	return []string{"frames are injected through the verif accessor that runs the receive loop's parse-and-dispatch in the caller's goroutine; emitted frames are read from the transmit ring instead of the wire", "the server's initial sequence number is drawn by the implementation and learned from its SYN-ACK (its boundary values are not steerable)", "segments are at most 1460 bytes and in order"}
